@@ -112,9 +112,9 @@ func runListenStop(o Opts) error {
 			ctl.Close()
 		}
 	}
-	// the scenarios below run side by side (each on its own port); the longest callback is busy for 5.5 s (thorough: 35 s)
+	// the scenarios below run side by side (each on its own port); the longest callback is busy for 11.5 s (thorough: 35 s)
 	var scen sync.WaitGroup
-	blocks := []time.Duration{200 * time.Millisecond, 1500 * time.Millisecond, 5500 * time.Millisecond}
+	blocks := []time.Duration{200 * time.Millisecond, 1500 * time.Millisecond, 5500 * time.Millisecond, 11500 * time.Millisecond}
 	if o.Tier == "thorough" {
 		blocks = append(blocks, 35*time.Second)
 	}
